@@ -36,6 +36,7 @@ type Out struct {
 	laws  *bufio.Writer
 	files []*os.File
 	n     int
+	extra int // executions that have no op line (law-only checks on the implementation)
 	Stats map[string]int
 	sig   map[string]bool // distinct non-trivial signatures
 	Samples []string
@@ -80,6 +81,9 @@ func (o *Out) Law(name string, replay interface{}) {
 
 func (o *Out) Count(key string) { o.Stats[key]++ }
 
+// Eval counts one execution of the implementation that is checked by laws only (no op line).
+func (o *Out) Eval() { o.extra++ }
+
 // NonTrivial records a signature of a non-trivial case (distinct ones are counted).
 func (o *Out) NonTrivial(sig string) { o.sig[sig] = true }
 
@@ -90,7 +94,7 @@ func (o *Out) Close() {
 	for _, f := range o.files {
 		f.Close()
 	}
-	st := map[string]interface{}{"evaluations": o.n, "distinct_nontrivial": len(o.sig), "stats": o.Stats, "samples": o.Samples}
+	st := map[string]interface{}{"evaluations": o.n + o.extra, "distinct_nontrivial": len(o.sig), "stats": o.Stats, "samples": o.Samples}
 	b, _ := json.MarshalIndent(st, "", " ")
 	_ = os.WriteFile(filepath.Join(o.dir, "stats.json"), b, 0o644)
 }
